@@ -111,3 +111,97 @@ pub fn case_json(set: u32, mode: Mode, pk: &[u8], sk: Option<&[u8]>, m: &[u8], c
 pub fn mode_from_name(s: &str) -> Mode {
     *refimpl::MODES.iter().find(|m| m.name() == s).expect("mode name")
 }
+
+/// developer aid: timings and iteration distributions (not a check)
+pub fn bench_stage(ctx: &Ctx) -> StageOut {
+    use crate::gen::{hostile_sk, SPat, T0Pat};
+    use crate::util::Prng;
+    let mut acc = Acc::new();
+    for &set in &ctx.sets {
+        let p = refimpl::params(set);
+        let t0 = std::time::Instant::now();
+        let mut g = Prng::new(ctx.seed);
+        for _ in 0..200 {
+            let _ = refimpl::keygen_internal(p, &g.arr32());
+        }
+        eprintln!("{}: reference keygen {:.3} ms", p.name, t0.elapsed().as_secs_f64() * 1000.0 / 200.0);
+        for (sp, tp) in [(SPat::Random, T0Pat::PartialExtremes(30)), (SPat::Random, T0Pat::PartialExtremes(50)), (SPat::Random, T0Pat::PartialExtremes(70)), (SPat::Random, T0Pat::PartialExtremes(85))] {
+            let res = crate::util::par_map(64, |i| {
+                let mut g = Prng::derive(ctx.seed, "bench", i as u64 + u64::from(set) * 1000);
+                let sk = hostile_sk(&mut g, p, sp, tp);
+                refimpl::events_reset();
+                let t = std::time::Instant::now();
+                let out = refimpl::sign_internal_capped(p, &sk, b"bench", &g.arr32(), 20000);
+                let e = refimpl::events_take();
+                (e.sign_iterations, out.is_some(), t.elapsed().as_secs_f64())
+            });
+            let mut its: Vec<u64> = res.iter().map(|r| r.0).collect();
+            its.sort_unstable();
+            let fails = res.iter().filter(|r| !r.1).count();
+            eprintln!("{} {sp:?}/{tp:?}: iterations min {} median {} p90 {} max {} capped {} ; max time {:.2}s", p.name, its[0], its[32], its[57], its[63], fails, res.iter().map(|r| r.2).fold(0.0, f64::max));
+        }
+    }
+    acc.eval();
+    StageOut::new("bench", "bench", false, acc)
+}
+
+
+/// Seeds whose reference key generation takes a rare path. The scan runs the instrumented
+/// reference only (never the crate), so caching its result on disk cannot hide a change in /repo.
+#[derive(Clone, Debug)]
+pub struct RareSeed {
+    pub xi: [u8; 32],
+    pub tags: Vec<String>,
+}
+
+pub fn rare_keygen_seeds(ctx: &Ctx, p: &refimpl::Params, n_scan: usize) -> Vec<RareSeed> {
+    use crate::util::{par_map, unhex, Prng};
+    let work = ctx.fixtures.parent().map_or_else(|| std::path::PathBuf::from("/verif"), |x| x.to_path_buf()).join("target").join("work");
+    let _ = std::fs::create_dir_all(&work);
+    let cache = work.join(format!("rare-keygen-{}-{}-{}.json", p.set, ctx.seed, n_scan));
+    if let Ok(text) = std::fs::read_to_string(&cache) {
+        if let Ok(v) = serde_json::from_str::<Value>(&text) {
+            if let Some(a) = v.as_array() {
+                return a.iter().filter_map(|e| Some(RareSeed { xi: unhex(e["xi"].as_str()?).try_into().ok()?, tags: e["tags"].as_array()?.iter().filter_map(|t| t.as_str().map(String::from)).collect() })).collect();
+            }
+        }
+    }
+    let shards = 64usize;
+    let found = par_map(shards, |sh| {
+        let mut g = Prng::derive(ctx.seed, &format!("rare-keygen-{}", p.name), sh as u64);
+        let mut out = Vec::new();
+        for _ in 0..n_scan / shards {
+            let xi = g.arr32();
+            refimpl::events_reset();
+            let _ = refimpl::keygen_internal(p, &xi);
+            let e = refimpl::events_take();
+            let mut tags = Vec::new();
+            if e.t_wrap_high > 0 { tags.push("t-wrap-high".to_string()); }
+            if e.t_wrap_low > 0 { tags.push("t-wrap-low".to_string()); }
+            if e.three_byte_eq_q > 0 { tags.push("three-byte-eq-q".to_string()); }
+            if e.three_byte_eq_qm1 > 0 { tags.push("three-byte-eq-q-1".to_string()); }
+            if e.three_byte_eq_qp1 > 0 { tags.push("three-byte-eq-q+1".to_string()); }
+            if !tags.is_empty() {
+                out.push(RareSeed { xi, tags });
+            }
+        }
+        out
+    });
+    let mut all: Vec<RareSeed> = found.into_iter().flatten().collect();
+    // keep at most 24 per tag
+    let mut per_tag: std::collections::HashMap<String, usize> = std::collections::HashMap::new();
+    all.retain(|r| {
+        let mut keep = false;
+        for t in &r.tags {
+            let c = per_tag.entry(t.clone()).or_insert(0);
+            if *c < 24 {
+                *c += 1;
+                keep = true;
+            }
+        }
+        keep
+    });
+    let v: Vec<Value> = all.iter().map(|r| json!({"xi": hex(&r.xi), "tags": r.tags})).collect();
+    let _ = std::fs::write(&cache, serde_json::to_string(&v).unwrap());
+    all
+}
